@@ -123,7 +123,13 @@ class Repo:
             name = rel[:-3].replace(os.sep, '.')
             if name.endswith('.__init__'):
                 name = name[:-9]
+            from . import normalize
+            try:
+                tree, inlined = normalize.run(tree, name)
+            except RecursionError:
+                inlined = []
             self.modules[name] = Mod(name, rel, src, tree)
+            self.modules[name].inlined = inlined
 
     def read_text(self, rel):
         """Non-python files (docs) -- read from disk / overlay."""
